@@ -74,6 +74,10 @@ func TestVerif(t *testing.T) {
 	for i := 0; i < nE; i++ {
 		r.Run(groupE+i, fmt.Sprintf("actions-e2e-%d", i), func(c *rep.Case) { runE2E(t, r, c, groupE+i) })
 	}
+	nF := grp("F", r.N(320, 2400))
+	for i := 0; i < nF; i++ {
+		r.Run(groupF+i, fmt.Sprintf("single-valued-%d", i), func(c *rep.Case) { runSingle(t, r, c, groupF+i) })
+	}
 }
 
 // selfCheckClasses validates the harness' class construction against x/text
